@@ -97,7 +97,7 @@ def build(text):
 
 
 def check_text(ctx, rng):
-    nsch = ctx.n(24, 2500)
+    nsch = ctx.n(24, 800)
     clean = []
     for si in range(nsch):
         schema = lvs.gen_schema(rng, with_signers=True, n_rules=rng.randint(2, 6))
@@ -275,7 +275,7 @@ def corruptions(model, rng, limit):
 
 
 def check_binary(ctx, rng, clean):
-    per_model = 80 if ctx.quick else 1200
+    per_model = 80 if ctx.quick else 600
     for (schema, text, checker) in clean[: (14 if ctx.quick else len(clean))]:
         blob = checker.save()
         ref = lvs.Ref(schema, lvs.USER_FNS)
